@@ -621,3 +621,34 @@ Proof.
 Qed.
 
 End Net.
+
+(* ------------------------------------------------------------------ exactly-once for the cascade model itself *)
+Definition a_rcv (d : adelivery) : addr := fst (fst (fst d)).
+
+Theorem cascade_broadcast_once : forall c lans sl fl now o n p fuel,
+  wf c -> net_ok c lans sl fl -> In o (all_rcvs c) ->
+  let w := world_of c lans sl fl now in
+  let q := emitted c lans sl fl now o (originate c o p) in
+  (list_sum (map (tsize (2 * (3 + n)) w) q) < fuel)%nat ->
+  exists log, cascade fuel w q [] = Ok (w, log) /\
+    let D := up_addrs w log in
+    (forall d, In d D -> d = (a_rcv d, rcv_addr o, DBcast, p)) /\
+    NoDup (map a_rcv D) /\
+    ~ In (rcv_addr o) (map a_rcv D) /\
+    (full c -> forall a, In a (all_addrs c) -> a <> rcv_addr o -> In a (map a_rcv D)).
+Proof.
+  intros c lans sl fl now o n p fuel W NK Io w q Hf.
+  destruct (cascade_equals_delivery c lans sl fl now W NK o n p fuel Io Hf) as [log [C P]].
+  exists log. split; [exact C|]. cbv zeta.
+  destruct (broadcast_once_any_size c o n p W Io) as [L [N [E Cov]]].
+  assert (Permutation (map a_rcv (up_addrs w log)) (map d_addr (broadcast n c o p))) as PA.
+  { eapply Permutation_trans; [apply Permutation_map; exact P|]. rewrite map_map.
+    assert (forall l : list delivery, map (fun x => a_rcv (dl x)) l = map d_addr l) as ->; [|apply Permutation_refl].
+    intros l. apply map_ext. intros [[[r s] dd] pp]. reflexivity. }
+  repeat split.
+  - intros d Id. apply (Permutation_in _ P) in Id. apply in_map_iff in Id. destruct Id as [x [<- Ix]].
+    rewrite (L x Ix). reflexivity.
+  - apply (Permutation_NoDup (Permutation_sym PA)). exact N.
+  - intros H. apply E. apply (Permutation_in _ PA). exact H.
+  - intros F a Ia Na. apply (Permutation_in _ (Permutation_sym PA)). apply Cov; assumption.
+Qed.
